@@ -77,7 +77,19 @@ UNITS["C04"] = [
                       "NOT under contract: construction of other_haves, the Partial branches (flat_map/collect closure chain)"]),
 ]
 
+UNITS["C17"] = [
+    dict(kind="verus", name="c17_authz", template="specs/c17_authz.vrs",
+         under_contract=["frag_authz", "frag_readonly_guard"], vacuity=["frag_authz", "frag_readonly_guard"],
+         assumptions=["String/&str token comparison replaced by a stand-in text type whose == is sequence equality",
+                      "header extraction (axum TypedHeader<Authorization<Bearer>>) and next.run are outside the fragment"]),
+    dict(kind="structural", name="c17_routes", check="authz_layer", file="crates/klukai-agent/src/agent/util.rs", fn="setup_http_api_handler",
+         trusted=["axum contract: Router::layer wraps every route added before it (and none added after)"]),
+    dict(kind="structural", name="c17_readonly", check="readonly_guard", file="crates/klukai-agent/src/api/public/mod.rs", fn="build_query_rows_response",
+         trusted=["rusqlite Statement::readonly == sqlite3_stmt_readonly; SQLITE_OPEN_READ_ONLY pool connections"]),
+]
+
 NOTES = {
+    "C17": "token decision fragment (Verus), route/middleware ordering and read-only-guard dominance (structural obligations on the real text)",
     "C04": "fragments of SyncStateV1::compute_available_needs: own-actor/zero-head guards, Full needs (sound + complete w.r.t. peer-held set), tail request above our head",
     "C18": "inductive transition contracts of Members (history length unbounded, state size bounded => Kani harnesses are labelled bounded)",
     "C12": "client clause only: SubscriptionStream accepts an event iff its id is last+1 and reports MissedChange otherwise",
